@@ -161,6 +161,7 @@ static void op_crash_sync(Exec& x, const Json& op, int)
 
 	unsigned ndev = (unsigned)x.sb.cfg.disks.size();
 	for (auto& cs : cases) {
+		bool shrunk_window = false; // the crash state showed the known "parity cut before the content save" shape
 		reset();
 		Json focus = Json::obj().set("k", cs.k).set("mode", cs.mode).set("sig", cs.sig ? 1 : 0).set("signo", cs.signo);
 		CmdSpec s = spec;
@@ -229,7 +230,7 @@ static void op_crash_sync(Exec& x, const Json& op, int)
 							if (x.sb.stat_file(rel, sz, ms, mns) && sz == f.size && ms == f.mtime_sec && mns == f.mtime_nsec) all_gone = false;
 						}
 					}
-					if (all_gone) x.out.viol[i].cls = "parity-shrunk-before-content-save";
+					if (all_gone) { x.out.viol[i].cls = "parity-shrunk-before-content-save"; shrunk_window = true; }
 				}
 				// the same breach is also a C07 breach (no false protection after interruption)
 				if (x.out.viol[i].prop == "C06" && (x.out.viol[i].cls == "parity-mismatch" || x.out.viol[i].cls == "parity-shrunk-before-content-save")) {
@@ -291,7 +292,9 @@ static void op_crash_sync(Exec& x, const Json& op, int)
 			if (undone) x.check_parity_every_cmd = false;
 			CmdResult q = x.cmd(again);
 			x.check_parity_every_cmd = keep;
-			if (undone && q.exit_code == 0) x.check_parity_invariant(when + " (resync after undo)");
+			// (when the interruption had already cut the parity - the known shape - what the undo brings back sits on parity that
+			// was regrown unwritten: judged once, below, through the check command)
+			if (undone && q.exit_code == 0 && !shrunk_window) x.check_parity_invariant(when + " (resync after undo)");
 			if (q.exit_code != 0 && undone && q.err.find("smaller than expected") != std::string::npos)
 				// consequence of the known shape: the interrupted sync had already truncated the parity of the files whose deletion the
 				// user then undid; sync rightly asks for --force-full
@@ -302,8 +305,15 @@ static void op_crash_sync(Exec& x, const Json& op, int)
 				std::string d = snap_diff(undone ? pre_data_for_resync : pre_data, now, true);
 				if (!d.empty()) x.violation("C07", "data-modified-by-sync", when + " (resync): " + d, focus);
 				if (trace_saved_content(x.sb, q)) check_copies_identical(x, when + " (resync)", focus);
+				bool keep2 = x.check_parity_every_cmd;
+				if (shrunk_window && undone) x.check_parity_every_cmd = false;
+				struct Restore2 { Exec& x; bool v; ~Restore2() { x.check_parity_every_cmd = v; } } restore2{ x, keep2 };
 				CmdResult c = x.simple("check");
-				if (c.exit_code != 0) x.violation("C07", "check-fails-after-resync", when + strf(": check exit=%d: ", c.exit_code) + first_lines(c.err), focus);
+				if (c.exit_code != 0 && shrunk_window && undone)
+					// consequence of the known shape: the parity cut at the interruption is regrown (unwritten) for the files the user
+					// put back, and a stripe whose new blocks hash to what parity "already covers" is not rewritten
+					x.violation("C07", "parity-shrunk-before-content-save", when + strf(": check exit=%d after the completing sync: the parity that was too short at the interruption was regrown unwritten for the files put back", c.exit_code), focus);
+				else if (c.exit_code != 0) x.violation("C07", "check-fails-after-resync", when + strf(": check exit=%d: ", c.exit_code) + first_lines(c.err), focus);
 				CmdResult df = x.simple("diff");
 				if (df.exit_code != 0) x.violation("C07", "diff-after-resync", when + strf(": diff exit=%d after the completing sync", df.exit_code), focus);
 			}
